@@ -75,6 +75,13 @@ class PathState:
     def add(self, c):
         self.solver.add(c)
         self.constraints.append(c)
+        if self.model is not None:
+            # keep the cached model only if it still satisfies the path condition
+            try:
+                if not z3.is_true(self.model.eval(c, model_completion=True)):
+                    self.model = None
+            except Exception:
+                self.model = None
 
     def add_hard(self, c):
         self.hard.append(c)
@@ -1243,6 +1250,8 @@ def m_str(x=''):
         return x
     if isinstance(x, LazyBigInt):
         return m_str(x.force())
+    if isinstance(x, SDecimal):
+        return x.to_str()
     if isinstance(x, (SDate, LazySel, SBV)):
         raise Unsupported('str() of %s' % type(x).__name__)
     if isinstance(x, SInt):
@@ -1298,8 +1307,12 @@ def m_isinstance(x, t):
         x = 0
     elif isinstance(x, SBool):
         x = True
+    elif isinstance(x, SDateTime):
+        x = _dt.datetime(2000, 1, 1)
     elif isinstance(x, SDate):
         x = _dt.date(2000, 1, 1)
+    elif isinstance(x, SDecimal):
+        x = _decimal.Decimal(0)
     return isinstance(x, t)
 
 
@@ -1356,6 +1369,9 @@ def m_map(f, *its):
 def m_sorted(it, **k):
     items = list(it)
     if deep_sym(items):
+        # (key, value) pairs with concrete distinct keys: the values are never compared
+        if not k and all(isinstance(x, tuple) and len(x) == 2 and not deep_sym(x[0]) for x in items) and len(set(x[0] for x in items)) == len(items):
+            return sorted(items, key=lambda x: x[0])
         raise Unsupported('sorted() of symbolic values')
     return sorted(items, **k)
 
@@ -2023,6 +2039,7 @@ RE = ReModule()
 # runtime entry points used by transformed code
 
 import datetime as _dt
+import decimal as _decimal
 import calendar as _calendar
 import operator as _op
 
@@ -2488,6 +2505,10 @@ class RT:
             return sym_today()
         if recv is _dt.datetime and name in ('now', 'today', 'utcnow'):
             return sym_today()
+        if recv is _dt.datetime and name == 'strptime' and deep_sym(args):
+            return m_strptime(*args)
+        if recv is _decimal and name == 'Decimal' and deep_sym(args):
+            return SDecimal.of_text(args[0])
         if recv is _dt.date and deep_sym(args) and name == '__call__':
             return SDate.make(*args)
         if recv is _calendar and name == 'monthrange' and deep_sym(args):
@@ -2740,6 +2761,220 @@ class SDate:
     def concrete(self, model):
         g = lambda t: model.eval(t, model_completion=True).as_long()
         return _dt.date(g(self.y), g(self.m), g(self.d))
+
+
+class SDateTime(SDate):
+    """model of datetime.datetime as produced by strptime (naive, fields symbolic)"""
+
+    def __init__(self, y, m, d, H=0, M=0, S=0):
+        SDate.__init__(self, y, m, d)
+        self.H, self.M, self.S = (z3.IntVal(v) if isinstance(v, int) else v for v in (H, M, S))
+
+    hour = property(lambda s: SInt(s.H))
+    minute = property(lambda s: SInt(s.M))
+    second = property(lambda s: SInt(s.S))
+
+    def date(self):
+        return SDate(self.y, self.m, self.d)
+
+    def replace(self, year=None, month=None, day=None):
+        y = zint(year) if year is not None else self.y
+        m = zint(month) if month is not None else self.m
+        d = zint(day) if day is not None else self.d
+        ok = z3.And(y >= 1, y <= 9999, m >= 1, m <= 12, d >= 1, d <= _dim(y, m))
+        if fork(ok):
+            return SDateTime(y, m, d, self.H, self.M, self.S)
+        raise ValueError('day is out of range for month')
+
+    def __sub__(self, other):
+        if isinstance(other, _dt.timedelta) and other == _dt.timedelta(days=1):
+            # one day back
+            first = self.d == 1
+            pm = z3.If(self.m == 1, 12, self.m - 1)
+            py = z3.If(self.m == 1, self.y - 1, self.y)
+            if not fork(z3.Or(z3.Not(first), py >= 1)):
+                raise OverflowError('date value out of range')
+            return SDateTime(z3.If(first, py, self.y), z3.If(first, pm, self.m), z3.If(first, _dim(py, pm), self.d - 1), self.H, self.M, self.S)
+        raise Unsupported('datetime arithmetic')
+
+    def _key(self):
+        return ((((self.y * 100 + self.m) * 100 + self.d) * 100 + self.H) * 100 + self.M) * 100 + self.S
+
+    def strftime(self, fmt):
+        out = []
+        i = 0
+        while i < len(fmt):
+            if fmt[i] != '%':
+                out.append(ord(fmt[i]))
+                i += 1
+                continue
+            code = fmt[i + 1]
+            i += 2
+            if code in 'HMS':
+                v = {'H': self.H, 'M': self.M, 'S': self.S}[code]
+                out.extend([48 + (v / 10) % 10, 48 + v % 10])
+            else:
+                out.extend(SStr.of(SDate.strftime(self, '%' + code)).chars)
+        return mk(out)
+
+    def concrete(self, model):
+        g = lambda t: model.eval(t, model_completion=True).as_long()
+        return _dt.datetime(g(self.y), g(self.m), g(self.d), g(self.H), g(self.M), g(self.S))
+
+
+def m_strptime(text, fmt):
+    """datetime.datetime.strptime for fixed-width all-numeric formats made of %y %Y %m %d %H %M %S"""
+    text = force(text)
+    if not isinstance(text, SStr):
+        return _dt.datetime.strptime(text, fmt)
+    fields = []
+    i = 0
+    while i < len(fmt):
+        if fmt[i] != '%' or i + 1 >= len(fmt) or fmt[i + 1] not in 'yYmdHMS':
+            raise Unsupported('strptime format %r' % fmt)
+        fields.append(fmt[i + 1])
+        i += 2
+    width = sum(4 if f == 'Y' else 2 for f in fields)
+    if len(text) != width:
+        # strptime also accepts one-digit fields; with a symbolic string of another length we do not model that
+        if len(text) > width:
+            raise ValueError('unconverted data remains')
+        raise Unsupported('strptime on a shorter symbolic string')
+    vals = {}
+    pos = 0
+    for f in fields:
+        w = 4 if f == 'Y' else 2
+        acc = z3.IntVal(0)
+        for c in text.chars[pos:pos + w]:
+            ok, v = digit_value(c, 10)
+            if not fork(ok):
+                raise ValueError('time data does not match format')
+            acc = acc * 10 + v
+        vals[f] = acc
+        pos += w
+    y = vals.get('Y')
+    if y is None:
+        yy = vals.get('y', z3.IntVal(0))
+        y = z3.If(yy <= 68, 2000 + yy, 1900 + yy) if 'y' in vals else z3.IntVal(1900)
+    m = vals.get('m', z3.IntVal(1))
+    d = vals.get('d', z3.IntVal(1))
+    H, M, S = vals.get('H', z3.IntVal(0)), vals.get('M', z3.IntVal(0)), vals.get('S', z3.IntVal(0))
+    ok = z3.And(m >= 1, m <= 12, d >= 1, d <= _dim(y, m), H <= 23, M <= 59, S <= 61, y >= 1)
+    if not fork(ok):
+        raise ValueError('time data does not match format')
+    return SDateTime(y, m, d, H, M, S)
+
+
+class SDecimal:
+    """model of decimal.Decimal built from a string of ASCII digits with at most one '.' at a concrete position"""
+
+    def __init__(self, ip, fp):
+        self.ip, self.fp = ip, fp      # lists of character terms (digits) before / after the point
+
+    @staticmethod
+    def of_text(text):
+        text = force(text)
+        if not isinstance(text, SStr):
+            import decimal
+            return decimal.Decimal(text)
+        dots = [k for k, c in enumerate(text.chars) if isinstance(c, int) and c == 46]
+        sym_dot = [c for c in text.chars if not isinstance(c, int)]
+        if len(dots) > 1:
+            import decimal
+            raise decimal.InvalidOperation('invalid literal')
+        chars = text.chars
+        ip = chars[:dots[0]] if dots else chars
+        fp = chars[dots[0] + 1:] if dots else []
+        if not ip and not fp:
+            import decimal
+            raise decimal.InvalidOperation('invalid literal')
+        conds = []
+        for c in ip + fp:
+            if isinstance(c, int):
+                if not (48 <= c <= 57):
+                    raise Unsupported('Decimal() of a literal with a non-digit concrete character')
+            else:
+                conds.append(z3.And(c >= 48, c <= 57))
+        if conds and not fork(z3.And(conds)):
+            raise Unsupported('Decimal() of a symbolic string with a non-ASCII-digit character (signs, exponents, Unicode digits not modelled)')
+        return SDecimal(ip, fp)
+
+    def coefficient(self):
+        acc = z3.IntVal(0)
+        for c in self.ip + self.fp:
+            acc = acc * 10 + ((c if isinstance(c, int) else c) - 48)
+        return acc
+
+    def __eq__(self, o):
+        if isinstance(o, SDecimal):
+            # numeric equality: scale to the larger number of fraction digits
+            a, b = self.coefficient() * 10 ** max(0, len(o.fp) - len(self.fp)), o.coefficient() * 10 ** max(0, len(self.fp) - len(o.fp))
+            return SBool(a == b)
+        import decimal
+        if isinstance(o, (int, decimal.Decimal)):
+            d = decimal.Decimal(o)
+            sign, digits, exp = d.as_tuple()
+            if sign or not isinstance(exp, int):
+                return SBool(z3.BoolVal(False)) if True else False
+            co = int(''.join(map(str, digits)) or '0')
+            k = max(0, -exp)
+            a = self.coefficient() * 10 ** max(0, k - len(self.fp))
+            b = co * 10 ** max(0, exp) * 10 ** max(0, len(self.fp) - k)
+            return SBool(a == b)
+        return False
+
+    def __ne__(self, o):
+        r = self.__eq__(o)
+        return SBool(z3.Not(r.z)) if isinstance(r, SBool) else (not r)
+
+    def __hash__(self):
+        raise Unsupported('hash of SDecimal')
+
+    def to_str(self):
+        """str(Decimal): leading zeros of the integer part dropped; scientific notation when the adjusted exponent < -6"""
+        ip, fp = list(self.ip), list(self.fp)
+        # number of leading zeros of the integer part (fork)
+        k = 0
+        while k < len(ip):
+            c = ip[k]
+            z = (c == 48) if isinstance(c, int) else fork(c == 48)
+            if not z:
+                break
+            k += 1
+        ip = ip[k:]
+        if ip:
+            return mk(ip + ([46] + fp if fp else []))
+        # integer part is zero: 0.xxx unless the leading fraction zeros push the adjusted exponent below -6
+        j = 0
+        while j < len(fp):
+            c = fp[j]
+            z = (c == 48) if isinstance(c, int) else fork(c == 48)
+            if not z:
+                break
+            j += 1
+        if j == len(fp):
+            # the value is zero: '0', '0.0' .. '0.000000', then '0E-7' ...
+            if len(fp) <= 6:
+                return mk([48] + ([46] + fp if fp else []))
+            return mk([48, 69, 45] + [ord(ch) for ch in str(len(fp))])
+        if j + 1 <= 6 or True:
+            # adjusted exponent = -(j + 1); plain notation while exponent >= -6, i.e. len(fp) <= ... python rule: exp >= -6 uses
+            # the exponent of the least significant digit: leftdigits = len(coefficient digits) + exponent > -6
+            ndig = len(fp) - j
+            leftdigits = ndig - len(fp)
+            if leftdigits > -6:
+                return mk([48, 46] + fp)
+            # scientific: d.ddE-n
+            digits = fp[j:]
+            e = -(j + 1)
+            out = [digits[0]] + ([46] + digits[1:] if len(digits) > 1 else []) + [69, 45] + [ord(ch) for ch in str(-e)]
+            return mk(out)
+
+    def concrete(self, model):
+        import decimal
+        g = lambda c: chr(c if isinstance(c, int) else model.eval(c, model_completion=True).as_long())
+        t = ''.join(g(c) for c in self.ip) + ('.' + ''.join(g(c) for c in self.fp) if self.fp else '')
+        return decimal.Decimal(t)
 
 
 TODAY_RANGE = (1970, 2199)
@@ -3219,7 +3454,7 @@ def model_val(model, v):
         return model.eval(v.z, model_completion=True).as_long()
     if isinstance(v, SBool):
         return z3.is_true(model.eval(v.z, model_completion=True))
-    if isinstance(v, SDate):
+    if isinstance(v, (SDate, SDecimal)):
         return v.concrete(model)
     if isinstance(v, (LazyDec, LazyBigInt)):
         # evaluate without forking: pieces
@@ -3285,4 +3520,5 @@ def bv_binop(op, l, r):
     return SInt(z3.BV2Int(z, False))
 
 
-SYM_TYPES = (SStr, SInt, SBool, LazyDec, LazyBigInt, SDate, LazySel, SBV)
+SYM_TYPES = (SStr, SInt, SBool, LazyDec, LazyBigInt, SDate, LazySel, SBV, SDecimal)
+_FUNC_MODELS[_decimal.Decimal] = SDecimal.of_text
